@@ -278,17 +278,19 @@ class Environment:
                 stop_event = until
 
         try:
-            while True:
+            # The end of the agenda is read from the agenda: an EmptySchedule
+            # escaping step() is the unhandled failure of some event and must
+            # not be mistaken for it.
+            while self._queue:
                 self.step()
                 if stop_event is not None and stop_event.callbacks is None:
                     StopSimulation.callback(stop_event)
         except StopSimulation as exc:
             return exc.args[0]  # == until.value
-        except EmptySchedule:
-            if until is not None:
-                assert not until.triggered
-                raise RuntimeError(
-                    f'No scheduled events left but "until" event was not '
-                    f'triggered: {until}'
-                )
+        if until is not None:
+            assert not until.triggered
+            raise RuntimeError(
+                f'No scheduled events left but "until" event was not '
+                f'triggered: {until}'
+            )
         return None
